@@ -453,6 +453,66 @@ func (f *FnEnc) guardedAccess(fr *Frame, st *State, R string, addr ssa.Value, wr
 		Pos: f.pos(fa.Pos()), Text: fmt.Sprintf("%s of %s.%s requires %s held", kind, tname, fname, g.mu)})
 }
 
+// guardedElems emits the lock obligation for an access (load, store, copy,
+// or handing a pointer to a callee) to memory that belongs to the ELEMENTS of
+// a guarded slice field (`guarded T.mu: f[*]`): for every parameter p *T of
+// the function under contract, "the address lies in p.f's backing array"
+// implies "p.mu is held".  By address, not by syntax, so it also covers
+// element pointers kept in local variables.
+func (f *FnEnc) guardedElems(fr *Frame, st *State, R string, ref string, pos token.Pos, what string) {
+	if fr != f.top || !f.eng.lockChecks || ref == "" || ref == "0" {
+		return
+	}
+	for _, p := range f.fn.Params {
+		pt, ok := p.Type().Underlying().(*types.Pointer)
+		if !ok {
+			continue
+		}
+		named, ok := pt.Elem().(*types.Named)
+		if !ok {
+			continue
+		}
+		g := f.eng.guardedFor(named)
+		if g == nil || len(g.elems) == 0 {
+			continue
+		}
+		if _, isStruct := named.Underlying().(*types.Struct); !isStruct {
+			continue
+		}
+		base := f.top.vals[p]
+		if base.Loc != nil || len(base.L) < 3 {
+			continue
+		}
+		fields := f.l.structFields(named)
+		var mu fieldInfo
+		for _, fi := range fields {
+			if fi.Name == g.mu {
+				mu = fi
+			}
+		}
+		held := f.loadLeaf(st, SBool, ptrAddr(base).plusSub(mu.Off+f.heldOffset(mu.T)))
+		for _, fi := range fields {
+			if !g.elems[fi.Name] {
+				continue
+			}
+			if _, isSlice := fi.T.Underlying().(*types.Slice); !isSlice {
+				continue
+			}
+			if ref == base.L[0] {
+				continue // the struct itself, not its elements
+			}
+			er := f.loadLeaf(st, SInt, ptrAddr(base).plusSub(fi.Off))
+			cond := implies(and(not(eq(base.L[0], "0")), not(eq(er, "0")), eq(ref, er)), held)
+			if cond == "true" {
+				continue
+			}
+			n := f.nextOrd("guardedelem:" + fi.Name + ":" + what)
+			f.c.oblige(Item{Guard: R, Formula: cond, Name: f.eng.fnKey(f.fn) + fmt.Sprintf("/guarded:%s.%s[*]:%s#%d", named.Obj().Name(), fi.Name, what, n), Class: "guarded",
+				Pos: f.pos(pos), Text: fmt.Sprintf("%s of an element of %s.%s requires %s held", what, named.Obj().Name(), fi.Name, g.mu)})
+		}
+	}
+}
+
 func (f *FnEnc) replayInfo(results []Val, post *State) *ReplayInfo {
 	ri := &ReplayInfo{Fn: f.fn, Pre: f.st0, Post: post, Results: results}
 	for _, p := range f.fn.Params {
